@@ -34,7 +34,7 @@ MUTATING_METHODS = {"update", "pop", "clear", "setdefault", "popitem", "__setite
 EXTERNAL_OBJECT_MAKERS = ("subprocess.", "asyncio.create_subprocess_", "asyncio.subprocess.", "asyncio.open_connection", "asyncio.start_server", "asyncio.Semaphore",
                           "asyncio.BoundedSemaphore", "asyncio.Lock", "asyncio.Event", "asyncio.Queue", "asyncio.get_event_loop", "asyncio.get_running_loop", "asyncio.new_event_loop",
                           "socket.", "re.", "logging.", "threading.", "multiprocessing.", "tempfile.", "hashlib.", "io.", "os.stat", "os.lstat", "os.scandir", "os.popen",
-                          "xml.", "urllib.", "http.", "selectors.", "signal.", "time.", "datetime.", "shutil.which")
+                          "xml.", "urllib.", "http.", "selectors.", "signal.", "time.", "datetime.", "shutil.which", "concurrent.futures.", "queue.", "contextlib.ExitStack")
 
 
 PATHLIB_BUILDERS = ("joinpath", "with_suffix", "with_name", "with_stem", "resolve", "absolute", "expanduser", "relative_to", "with_segments")
